@@ -16,5 +16,5 @@ PROP = {'title': 'Configuration layers apply in the documented precedence',
                'one key alias per setting per case (mixing aliases across layers is outside the stated rule). A cycle among profiles that are not on the selected chain is '
                'accepted either way. A daemon that cannot bind its port, or any timeout, is inconclusive.',
  'assumptions': ['free loopback ports in 11000-31000', 'DEFAULTS/STATUS report the configuration the daemon actually runs with (the control and transport listeners are also reached directly)'],
- 'tiers': {'quick': [script(['{ROOT}/harness/C32_hyp.py', '--cases', '80', '--workers', '4'], name='hyp', label='Hypothesis black-box (eph serve + DEFAULTS)', timeout_s=900)],
+ 'tiers': {'quick': [script(['{ROOT}/harness/C32_hyp.py', '--cases', '160', '--workers', '4'], name='hyp', label='Hypothesis black-box (eph serve + DEFAULTS)', timeout_s=900)],
            'thorough': [script(['{ROOT}/harness/C32_hyp.py', '--cases', '1500', '--workers', '8'], name='hyp', label='Hypothesis black-box (eph serve + DEFAULTS)', timeout_s=3600)]}}
